@@ -17,7 +17,9 @@ retained value as a function of the same parameters.
 
 Accepted: straight-line code made of
   * `name = expr`, `name op= expr` (op in + - * /; only on a variable that owns a fresh array: no alias, not a
-    parameter, not a view), `lst[i] op= expr` on a list of arrays,
+    parameter, not a view), `lst[i] op= expr` on a list of arrays, also written `g = lst[i]` … `g op= expr` (the name `g`
+    then IS the i-th array of the list: NumPy updates it in place, the list sees it; accepted while the list has not
+    changed since `g` was taken from it, every other name taken from the same list becomes unreadable),
   * `if retain: self.<attr>_ = expr` (ignored for the returned value, see above), doc-strings,
   * `return expr` where expr is an array, a list literal / list comprehension over a literal tuple or list
     (`[-g for g in (a, b)]`), or a variable holding one,
@@ -164,6 +166,7 @@ class Unit:
         self.args = []
         self.list_args = set()
         self.scopes = []                      # inlined helper functions: [name, {python name: Lean name}, returned Val]
+        self.elem = {}                        # python name -> (list name, i, the list's Val then): the name IS lst[i]
         self.taken = None                     # names a helper-local Lean name must avoid
 
     # ------------------------------------------------------------ helpers
@@ -242,6 +245,8 @@ class Unit:
         if isinstance(e, ast.Name):
             if e.id in self.env:
                 v = self.env[e.id]
+                if v.kind == "stale":
+                    self.fail(f"read of {e.id}, an array of a list that was updated in place through another name since", e)
                 return Val(v.kind, v.term, False)
             self.fail(f"unknown name {e.id}", e)
         if isinstance(e, ast.Attribute):
@@ -502,6 +507,7 @@ class Unit:
         else:
             self.env[name] = v
         self.aliased.discard(name)
+        self.elem.pop(name, None)
 
     def run(self):
         fn = self.fn
@@ -582,6 +588,11 @@ class Unit:
             self.bind(t.id, v)
             if not v.fresh:
                 self.aliased.add(t.id)
+            sub = st.value
+            if not self.scopes and isinstance(sub, ast.Subscript) and isinstance(sub.value, ast.Name) and sub.value.id != t.id \
+                    and isinstance(sub.slice, ast.Constant) and type(sub.slice.value) is int and sub.slice.value >= 0 \
+                    and self.env.get(sub.value.id) is not None and self.env[sub.value.id].kind in ("list", "olist"):
+                self.elem[t.id] = (sub.value.id, sub.slice.value, self.env[sub.value.id])
             return
         if isinstance(t, ast.Attribute) and isinstance(t.value, ast.Name) and t.value.id == "self" and t.attr.endswith("_") \
                 and not self.scopes:
@@ -605,6 +616,21 @@ class Unit:
             cur = self.env.get(t.id)
             if cur is None or cur.kind != "arr":
                 self.fail(f"augmented assignment to {t.id}", st)
+            if t.id in self.elem:
+                # `g = lst[i]` … `g op= expr`: NumPy updates the array in place, so this is `lst[i] op= expr`
+                lname, i, then = self.elem[t.id]
+                if self.env.get(lname) is not then:
+                    self.fail(f"in-place update of {t.id}, taken from the list {lname} which has changed since", st)
+                rhs = self.expr(st.value)
+                v = self.binop(st.op, Val("arr", cur.term), rhs, st)
+                if v.kind != "arr":
+                    self.fail("item update with a non-array", st)
+                self.set_item(lname, i, v)
+                self.bind(t.id, Val("arr", self.expr(ast.Subscript(value=ast.Name(id=lname, ctx=ast.Load()),
+                                                                  slice=ast.Constant(value=i), ctx=ast.Load())).term, False))
+                self.aliased.add(t.id)
+                self.elem[t.id] = (lname, i, self.env[lname])
+                return
             if not cur.fresh or t.id in self.aliased:
                 self.fail(f"in-place update of {t.id}, which is (or may be) shared with another name, a parameter or an attribute", st)
             rhs = self.expr(st.value)
@@ -622,14 +648,30 @@ class Unit:
             v = self.binop(st.op, cur, rhs, st)
             if v.kind != "arr":
                 self.fail("item update with a non-array", st)
-            if lst.kind == "list":
-                items = list(lst.term)
-                items[i] = v.term
-                self.env[t.value.id] = Val("list", items)
-            else:
-                self.bind(t.value.id, Val("olist", f"(Arr.setNth {lst.term} {i} {v.term})"))
+            self.set_item(t.value.id, i, v)
             return
         self.fail("unsupported augmented assignment target", st)
+
+    def set_item(self, lname, i, v):
+        """the list `lname` with its i-th array replaced by `v` (`lst[i] op= expr`: for an ndarray the update is in place,
+        so every name that was taken from the list before holds a changed array: such names become unreadable)"""
+        lst = self.env[lname]
+        keep = dict(self.elem)
+        if lst.kind == "list":
+            if i >= len(lst.term):
+                self.fail("list index out of range")
+            items = list(lst.term)
+            for name, cur in list(self.env.items()):                   # a variable holding that very array: changed too
+                if cur.kind == "arr" and cur.term == items[i] and name not in keep:
+                    self.env[name] = Val("stale", "")
+            items[i] = v.term
+            self.env[lname] = Val("list", items)
+        else:
+            self.bind(lname, Val("olist", f"(Arr.setNth {lst.term} {i} {v.term})"))
+        for name, (ln, _, _) in keep.items():
+            if ln == lname:
+                self.elem.pop(name, None)
+                self.env[name] = Val("stale", "")
 
     # ------------------------------------------------------------ emission
     def attr_order(self):
